@@ -353,7 +353,9 @@ class HistogramBase(abc.ABC):
         if self._errors2 is not None:
             self._errors2 = self._errors2.astype(value)
         if self._missed is not None:
-            self._missed = self._missed.astype(value)
+            if not (value.kind in "iu" and np.isnan(self._missed).any()):
+                # NaN (= unknown) missed counts cannot be stored as integers
+                self._missed = self._missed.astype(value)
 
     def _coerce_dtype(self, other_dtype: DTypeLike) -> None:
         """Possibly change the bin content type to allow correct operations with other operand.
